@@ -31,7 +31,10 @@ def check(ctx):
         "their inputs are (ChaCha20-Poly1305 and scrypt strength assumed)",
         "trim + NFKC is taken from the unicode-normalization crate (the harness passes its graph on the strings of a case)",
         "session expiry is not modelled: the config-file provider issues sessions without expiry and never checks it",
-        "the peer of the Unix socket is the user running the check; 'mapped' / 'unmapped' is decided by the configuration",
+        "the peer of the Unix socket is the user running the check ('mapped' / 'unmapped' decided by the configuration); when the "
+        "check runs as root (it does here; otherwise the case c20-unixcred is skipped with a message) the connecting thread's "
+        "effective uid and gid are additionally varied (root/daemon/bin/sys/nobody x gids 0,1,2,3,12,65534; SO_PEERCRED is taken "
+        "at connect time) and the served identity is compared with the model's: the user of the effective uid, whatever the gid",
         "OpenID Connect provider not modelled (offline)",
     ]
     return vlib.finish(ctx, "proof", RULE)
